@@ -32,7 +32,16 @@ bool ops_image(Ctx& c, const json& s, int idx, bool& handled) {
 		for (std::size_t i = 0; i < b.palette.size(); ++i) if (i >= b2.palette.size() || !(b2.palette[i] == b.palette[i])) return bad("palette entry " + std::to_string(i) + " after reread");
 		if (bmp_bytes(b2) != out) { Proto::mismatch(site, "not-byte-stable", where("")); return false; }
 		BitmapFile f = b; f.InvertScanLines(); if (f.imageHeader.height != -b.imageHeader.height) return bad("flip does not negate the height"); if (bmp_bytes(f) != flip) { Proto::mismatch(site + "/flip", "bytes", where(Scen::hexdiff(bmp_bytes(f), flip))); return false; }
-		f.InvertScanLines(); if (!(f == b)) { Proto::mismatch(site + "/flip", "twice-is-not-identity", where("")); return false; } return true; }
+		f.InvertScanLines(); if (!(f == b)) { Proto::mismatch(site + "/flip", "twice-is-not-identity", where("")); return false; }
+		// the small helpers of the header agree with the description: row bytes, pitch, depth predicates; != is the negation of == on every level
+		const std::size_t rowBytes = ((std::size_t)s["w"].get<int>() * s["bc"].get<int>() + 7) / 8;
+		if (b.imageHeader.CalcPixelByteWidth() != rowBytes || b.imageHeader.CalculatePitch() != s["pitch"].get<std::size_t>() || ImageHeader::CalculatePitch(b.imageHeader.bitCount, b.imageHeader.width) != s["pitch"].get<std::size_t>()) return bad("row bytes / pitch helpers");
+		if (!b.imageHeader.IsIndexedImage() || !b.imageHeader.IsValidBitCount() || throws([&] { b.imageHeader.VerifyValidBitCount(); }) || ImageHeader::IsValidBitCount((uint16_t)(b.imageHeader.bitCount + 1)) != (b.imageHeader.bitCount + 1 == 4 || b.imageHeader.bitCount + 1 == 8) || !throws([&] { ImageHeader::VerifyValidBitCount(3); }) || ImageHeader::IsIndexedImage(16)) return bad("depth predicates");
+		{ BitmapFile g = b; g.InvertScanLines(); const bool same = g == b;
+			if ((g != b) == same || (g.imageHeader != b.imageHeader) == (g.imageHeader == b.imageHeader) || (g.bmpHeader != b.bmpHeader) == (g.bmpHeader == b.bmpHeader)) return bad("!= is not the negation of ==");
+			if (same != (b.imageHeader.height == 0)) return bad("a flipped bitmap compares equal to the original");
+			for (std::size_t i = 0; i + 1 < b.palette.size(); ++i) if ((b.palette[i] != b.palette[i + 1]) == (b.palette[i] == b.palette[i + 1])) return bad("Color != is not the negation of =="); }
+		return true; }
 	if (op == "bmp_factory") { BitmapFile b; if (throws([&] { b = BitmapFile::CreateIndexed(s["bc"].get<uint16_t>(), s["w"].get<uint32_t>(), s["h"].get<int32_t>()); })) { Proto::mismatch(site, "refused-should-accept", where("")); return false; }
 		if (throws([&] { b.Validate(); })) { Proto::mismatch(site, "field", where("Validate() refuses a factory-made bitmap")); return false; }
 		auto out = bmp_bytes(b), want = raw(s["image"]); if (out != want) { Proto::mismatch(site, "bytes", where(Scen::hexdiff(out, want))); return false; } BitmapFile b2; if (throws([&] { b2 = bmp_from(out); }) || !(b2 == b)) { Proto::mismatch(site, "round-trip-not-equal", where("")); return false; } return true; }
@@ -101,7 +110,7 @@ bool ops_image(Ctx& c, const json& s, int idx, bool& handled) {
 			try { *art = ArtFile::Read(r); } catch (const std::exception&) { err = true; }
 			if (!err) { tryOp("Write", [&] { Stream::DynamicMemoryWriter w; art->Write(w); });
 				for (auto& pf : s["pixelFiles"]) { std::size_t len = pf; std::string bmp = ROOT + "/pix" + std::to_string(len) + ".bmp"; { std::vector<unsigned char> px(len); for (std::size_t j = 0; j < len; ++j) px[j] = (unsigned char)(j * 13 + 1); Scen::spit(bmp, px); }
-					tryOp("SpriteLoader", [&] { SpriteLoader loader(bmp, art);
+					tryOp("SpriteLoader", [&] { SpriteLoader loader(bmp, art); if (loader.ImageCount() != art->imageMetas.size() || loader.AnimationCount() != art->animations.size()) Proto::mismatch(fsite + "/SpriteLoader", "count", where("ImageCount / AnimationCount"));
 						for (std::size_t i = 0; i <= art->imageMetas.size() + 1; ++i) tryOp("ExtractImage", [&] { loader.ExtractImage(i, ROOT + "/sprite.bmp"); });
 						tryOp("FrameCount", [&] { if (!art->animations.empty()) { (void)loader.FrameCount(0); if (!art->animations[0].frames.empty()) (void)loader.LayerCount(0, 0); } }); }); } } }
 		at("load");
